@@ -118,6 +118,92 @@ class Function:
         return "<Function %s>" % self.name
 
 
+def _single_return_expr(fj):
+    """E if the function body is just `return E;` with a side-effect-free E (a predicate / accessor helper), else None"""
+    body = fj.get("body")
+    if not body or body.get("k") != "block":
+        return None
+    stmts = [c for c in body.get("ch", []) if c is not None]
+    if len(stmts) != 1 or stmts[0].get("k") != "return" or stmts[0].get("val") is None:
+        return None
+    e = stmts[0]["val"]
+    for x in walk(e):
+        if x.get("k") in ("assign", "call", "stmtexpr") or (x.get("k") == "un" and x.get("op") in ("++", "--")):
+            return None
+    return e
+
+
+def inline_expression_helpers(j):
+    """Calls to a static helper whose whole body is `return <pure expression>;` are replaced, in the callers' trees, by that
+    expression with the arguments substituted (the node of the call keeps its id, so the CFG still refers to it).  A gate or
+    predicate that a refactoring moved into such a helper is then seen by every rule exactly as if it were written in place."""
+    import copy
+    helpers = {}
+    for fj in j["functions"]:
+        if fj.get("static"):
+            e = _single_return_expr(fj)
+            if e is not None:
+                helpers[fj["n"]] = (fj, e)
+    if not helpers:
+        return 0
+    maxid = [0]
+    for fj in j["functions"]:
+        for x in walk(fj["body"]):
+            maxid[0] = max(maxid[0], x.get("i", 0))
+    count = 0
+
+    def subst(e, binding):
+        e = copy.deepcopy(e)
+
+        def rec(n):
+            if n.get("k") == "ref" and n.get("rk") == "param" and n.get("d") in binding:
+                a = copy.deepcopy(binding[n["d"]])
+                renumber(a)
+                return a
+            for key in CHILD_KEYS:
+                v = n.get(key)
+                if isinstance(v, dict):
+                    n[key] = rec(v)
+            if n.get("ch"):
+                n["ch"] = [rec(c) if c is not None else None for c in n["ch"]]
+            maxid[0] += 1
+            n["i"] = maxid[0]
+            return n
+
+        def renumber(n):
+            for x in walk(n):
+                maxid[0] += 1
+                x["i"] = maxid[0]
+        return rec(e)
+    for fj in j["functions"]:
+        if fj["n"] in helpers:
+            continue
+        for x in list(walk(fj["body"])):
+            if x.get("k") != "call":
+                continue
+            cal = x["ch"][0] if x.get("ch") else None
+            while cal is not None and cal.get("k") in ("paren", "icast", "cast"):
+                cal = cal["ch"][0]
+            if cal is None or cal.get("k") != "ref" or cal.get("rk") != "func" or cal.get("n") not in helpers:
+                continue
+            hj, e = helpers[cal["n"]]
+            args = x["ch"][1:]
+            if len(args) != len(hj["params"]) or any(a is None for a in args):
+                continue
+            if any(y.get("k") in ("assign", "call") for a in args for y in walk(a)):
+                continue          # argument with side effects: substitution could duplicate it
+            binding = {p["d"]: a for p, a in zip(hj["params"], args)}
+            new = subst(e, binding)
+            keep = {k_: x[k_] for k_ in ("i", "l", "f", "m", "t", "tc", "tw", "ts", "tp") if k_ in x}
+            x.clear()
+            x.update(keep)
+            x["k"] = "paren"
+            x["ch"] = [new]
+            x["inlined"] = cal["n"]
+            count += 1
+    return count
+
+
 class Unit:
     def __init__(self, name, j, srcdir):
         self.name = name
@@ -126,6 +212,7 @@ class Unit:
         self.files = j["files"]
         self.main = j.get("main", name)
         self.functions = {}
+        self.inlined_helpers = inline_expression_helpers(j)
         for fj in j["functions"]:
             f = Function(self, fj)
             self.functions[f.name] = f
